@@ -2,7 +2,7 @@
 import json
 import vlib
 
-ACTIONS = ["EncBytes", "EncNil", "EncList", "EncEnd", "Finish", "DecBytes", "DecList", "DecSkip", "DecPop",
+ACTIONS = ["EncBytes", "EncNil", "EncRaw", "EncList", "EncEnd", "Finish", "DecBytes", "DecList", "DecRaw", "DecSkip", "DecPop",
            "Corrupt", "SPush", "Scalar"]
 
 
@@ -41,7 +41,7 @@ def run(ctx):
     if ctx.quick():
         r = ctx.tlc("codec", "Gen_RlpTyped", "GenMC_RlpTyped.cfg", constants={"Level": 1}, coverage=True, timeout=600,
                     label="typed level 1 (check + generate)")
-        ctx.check_coverage(r, ["PickType", "Marshal"])
+        ctx.check_coverage(r, ["PickType", "Marshal", "Cross"])
         ty = _dedup(vlib.parse_tagged(r.printed, "B"))
         r = ctx.tlc("codec", "Gen_RlpMsg", "GenMC_RlpMsg.cfg", constants={"Level": 1, "Family": '"both"'},
                     coverage=True, timeout=600, label="hooks (check + generate)")
@@ -51,7 +51,7 @@ def run(ctx):
     else:
         r = ctx.model_check("codec", "MC_RlpTyped", "MCI_RlpTyped.cfg", constants={"Level": 1}, coverage=True,
                             timeout=3000, label="typed level 1")
-        ctx.check_coverage(r, ["PickType", "Marshal"])
+        ctx.check_coverage(r, ["PickType", "Marshal", "Cross"])
         for fam in ("msg", "any"):
             r = ctx.model_check("codec", "MC_RlpMsg", "MCI_RlpMsg.cfg", constants={"Level": 1, "Family": '"%s"' % fam},
                                 coverage=True, timeout=3000, label="hooks " + fam)
